@@ -1039,8 +1039,12 @@ class QCumulantFlow(FlowInterface.FlowInterface):
                 and total_elements_bin_poi > 0
             ):
                 flow_bins.append(
+                    # all particles are reference particles, so the particles
+                    # that are both POI and reference (q_n, m_q) are the POI
                     self.__compute_differential_flow_bin(
-                        full_event_quantities, phi_bin[bin], phi_bin_poi[bin]
+                        full_event_quantities,
+                        phi_bin_poi[bin],
+                        phi_bin_poi[bin],
                     )
                 )
             else:
